@@ -84,6 +84,27 @@ class Module:
         from .desugar import desugar_matches
 
         self.desugared_matches = desugar_matches(self.tree) if " match " in text or "\nmatch " in text else 0
+        # one-expression closures and partial objects bound to a local are read as the calls they abbreviate (octacheck.closures)
+        self.reduced_abbreviations = 0
+        if not os.environ.get("OCTACHECK_NO_INLINE") and ("partial(" in text or "\n        def " in text or "\n    def " in text):
+            from .inline import known_functions
+
+            known_fns = known_functions().get(name)
+            if known_fns is not None:
+                from .closures import reduce_local_abbreviations
+
+                def _is_new_nested(g: ast.AST) -> bool:
+                    parts = [g.name]  # type: ignore[attr-defined]
+                    cur = getattr(g, "_parent", None)
+                    while cur is not None and not isinstance(cur, ast.Module):
+                        if isinstance(cur, (ast.FunctionDef, ast.AsyncFunctionDef)):
+                            parts.append(cur.name + ".<locals>")
+                        elif isinstance(cur, ast.ClassDef):
+                            parts.append(cur.name)
+                        cur = getattr(cur, "_parent", None)
+                    return ".".join(reversed(parts)) not in known_fns
+
+                self.reduced_abbreviations = reduce_local_abbreviations(self.tree, _is_new_nested)
         self.functions: dict[str, FuncInfo] = {}
         self.classes: dict[str, ClassInfo] = {}
         self.imports: dict[str, str] = {}  # local name -> dotted target (module-level)
